@@ -192,6 +192,21 @@ def headerStr (h : Header) : String :=
   s!" {h.elements.length}" ++ String.join (h.elements.map (fun e =>
     s!" {hexOf e.name} {e.count} {e.props.length}" ++ String.join (e.props.map (fun p => " " ++ propStr p))))
 
+/-- oracle `…holds.entrypoints_agree` / `…holds.save_agrees`: the argument list is a sequence of results separated by
+the token `|`; true iff there are at least two and all are identical (the result of loading a file does not depend on
+the entry point / reader type it came through) -/
+def splitBar (args : List String) : List (List String) :=
+  let rec go : List String → List String → List (List String)
+    | [], cur => [cur.reverse]
+    | t :: rest, cur => if t = "|" then cur.reverse :: go rest [] else go rest (t :: cur)
+  go args []
+
+def allSegmentsEqual (args : List String) : Bool :=
+  match splitBar args with
+  | [] => false
+  | [_] => false
+  | s :: rest => rest.all (· == s)
+
 def run {β : Type} (p : P β) (args : List String) : Option β :=
   match p args with
   | some (x, []) => some x
